@@ -592,27 +592,17 @@ theorem sortDesc_append (a b : List File) : sortDesc (a ++ b) = a.foldr ins (sor
   simp [sortDesc, List.foldr_append]
 
 /-- ranking and truncating (truncated ranked aggregate ++ new batch) = ranking and truncating (everything ++ new batch),
-    when no promotion is possible (one extension) and scores are pairwise distinct -/
-theorem agg_step (c : Bool) (hc : Comp c) (D M : Nat) (e : Nat) (U r : List File)
-    (hnd : (scores (U ++ r)).Nodup) (hext : ∀ f ∈ U ++ r, f.ext = e) :
+    when scores are pairwise distinct and the promotion does not change what the truncation returns (`hB`) -/
+theorem agg_step (c : Bool) (hc : Comp c) (D M : Nat) (U r : List File)
+    (hnd : (scores (U ++ r)).Nodup)
+    (hB : topN c (optL D) (optL M) (sortFiles (topN c (optL D) (optL M) (sortDesc U) ++ r)) =
+          topN c (optL D) (optL M) (sortDesc (topN c (optL D) (optL M) (sortDesc U) ++ r))) :
     topN c (optL D) (optL M) (sortFiles (topN c (optL D) (optL M) (sortDesc U) ++ r)) =
       topN c (optL D) (optL M) (sortDesc (U ++ r)) := by
   have hndU : (scores U).Nodup := by
     rw [scores_append] at hnd; exact (List.nodup_append.mp hnd).1
   have hA_sorted : SortedD (topN c (optL D) (optL M) (sortDesc U)) :=
     topN_sorted c _ _ _ (sortDesc_sorted U hndU)
-  -- extensions
-  have hextA : ∀ f ∈ topN c (optL D) (optL M) (sortDesc U) ++ r, f.ext = e := by
-    intro f hf
-    rcases List.mem_append.mp hf with hf | hf
-    · obtain ⟨g, hg, eg⟩ := topN_ext c _ _ _ f hf
-      rw [eg]
-      exact hext g (List.mem_append_left _ ((sortDesc_perm U).mem_iff.mp hg))
-    · exact hext f (List.mem_append_right _ hf)
-  have hboost : sortFiles (topN c (optL D) (optL M) (sortDesc U) ++ r) =
-      sortDesc (topN c (optL D) (optL M) (sortDesc U) ++ r) := by
-    unfold sortFiles
-    exact boost_sameExt e _ (fun f hf => hextA f ((sortDesc_perm _).mem_iff.mp hf))
   -- distinct scores of (A ++ r)
   have hndA : (scores (topN c (optL D) (optL M) (sortDesc U) ++ r)).Nodup := by
     rw [scores_append]
@@ -623,7 +613,7 @@ theorem agg_step (c : Bool) (hc : Comp c) (D M : Nat) (e : Nat) (U r : List File
       rw [scores_append]
       exact List.Perm.append ((sortDesc_perm U).map _) (List.Perm.refl _)
     exact hperm.nodup_iff.mpr hnd
-  rw [hboost]
+  rw [hB]
   rw [sortDesc_perm_eq _ _ List.perm_append_comm hndA, sortDesc_append, sortDesc_of_sorted _ hA_sorted]
   rw [topN_foldr_ins c hc _ _ (posO_optL M)]
   rw [← sortDesc_append, sortDesc_perm_eq (r ++ U) (U ++ r) List.perm_append_comm
@@ -634,33 +624,44 @@ theorem sortAndTruncate_eq (D M : Nat) (c : Bool) (l : List File) :
   unfold sortAndTruncate
   exact trunc1_topN D M c _
 
-theorem collect_fold (c : Bool) (hc : Comp c) (D M : Nat) (hlim : hasDisplayLimit D M = true) (e : Nat)
+/-- "the promotion does not change what the truncation returns", for every list whose files carry extensions of
+    files of `U0` -/
+def NoPromo (c : Bool) (D M : Nat) (U0 : List File) : Prop :=
+  ∀ l : List File, (∀ f ∈ l, ∃ g ∈ U0, f.ext = g.ext) →
+    topN c (optL D) (optL M) (sortFiles l) = topN c (optL D) (optL M) (sortDesc l)
+
+theorem collect_fold (c : Bool) (hc : Comp c) (D M : Nat) (hlim : hasDisplayLimit D M = true) (U0 : List File)
+    (hB : NoPromo c D M U0)
     (batches : List (List File)) : ∀ (agg : Option (List File)) (U : List File),
     agg.getD [] = topN c (optL D) (optL M) (sortDesc U) →
-    (scores (U ++ batches.flatten)).Nodup → (∀ f ∈ U ++ batches.flatten, f.ext = e) →
+    (scores (U ++ batches.flatten)).Nodup → (∀ f ∈ U ++ batches.flatten, f ∈ U0) →
     (batches.foldl (collectSend D M c) agg).getD [] = topN c (optL D) (optL M) (sortDesc (U ++ batches.flatten)) := by
   induction batches with
   | nil => intro agg U h _ _; simpa using h
   | cons b bs ih =>
-    intro agg U h hnd hext
-    simp only [List.foldl_cons, List.flatten_cons] at hnd hext ⊢
+    intro agg U h hnd hmem
+    simp only [List.foldl_cons, List.flatten_cons] at hnd hmem ⊢
     by_cases hb : b = []
     · subst hb
       have : collectSend D M c agg [] = some (agg.getD []) := by simp [collectSend]
       rw [this]
-      simpa using ih (some (agg.getD [])) U (by simpa using h) (by simpa using hnd) (by simpa using hext)
+      simpa using ih (some (agg.getD [])) U (by simpa using h) (by simpa using hnd) (by simpa using hmem)
     · have hne : b.isEmpty = false := by cases b <;> simp_all
       have hs : collectSend D M c agg b = some (sortAndTruncate D M c (agg.getD [] ++ b)) := by
         simp [collectSend, hne, hlim]
       rw [hs, ← List.append_assoc]
-      refine ih _ (U ++ b) ?_ (by rw [List.append_assoc]; exact hnd) (by rw [List.append_assoc]; exact hext)
+      refine ih _ (U ++ b) ?_ (by rw [List.append_assoc]; exact hnd) (by rw [List.append_assoc]; exact hmem)
       simp only [Option.getD_some]
       rw [sortAndTruncate_eq, h]
-      refine agg_step c hc D M e U b ?_ ?_
+      refine agg_step c hc D M U b ?_ ?_
       · rw [← List.append_assoc, scores_append] at hnd
         exact (List.nodup_append.mp hnd).1
-      · intro f hf
-        exact hext f (by rw [← List.append_assoc]; exact List.mem_append_left _ hf)
+      · apply hB
+        intro f hf
+        rcases List.mem_append.mp hf with hf | hf
+        · obtain ⟨g, hg, eg⟩ := topN_ext c _ _ _ f hf
+          exact ⟨g, hmem g (List.mem_append_left _ ((sortDesc_perm U).mem_iff.mp hg)), eg⟩
+        · exact ⟨f, hmem f (List.mem_append_right _ (List.mem_append_left _ hf)), rfl⟩
 
 theorem foldl_collectSend_isSome (D M : Nat) (c : Bool) (batches : List (List File)) (a : List File) :
     ∃ x, batches.foldl (collectSend D M c) (some a) = some x := by
@@ -693,5 +694,47 @@ theorem collect_nolimit_fold (c : Bool) (batches : List (List File)) : ∀ (agg 
     · subst hb; simp [collectSend]
     · have hne : b.isEmpty = false := by cases b <;> simp_all
       simp [collectSend, hne, hasDisplayLimit]
+
+/-! ### with a file limit of 1 or 2 the promotion cannot matter: it never touches the first two places -/
+
+theorem boost_take2 (l : List File) : (boost l 2).take 2 = l.take 2 := by
+  unfold boost
+  split
+  · rfl
+  · rename_i hlen
+    simp only
+    split
+    · rfl
+    · split
+      · rfl
+      · split
+        · rfl
+        · have h2 : (l.take 2).length = 2 := by rw [List.length_take]; omega
+          rw [List.take_append_of_le_length (by omega), List.take_of_length_le (by omega)]
+
+theorem topN_take_D (c : Bool) (l : List File) : ∀ (D : Nat) (m : Option Nat),
+    topN c (some D) m l = topN c (some D) m (l.take D) := by
+  induction l with
+  | nil => intro D m; simp
+  | cons f rest ih =>
+    intro D m
+    cases D with
+    | zero => rw [topN_exhausted _ _ _ _ rfl, topN_exhausted _ _ _ _ rfl]
+    | succ D =>
+      rw [List.take_succ_cons, topN_cons c _ m f rest rfl, topN_cons c _ m f _ rfl]
+      cases nextM c m f with
+      | none => rfl
+      | some m2 =>
+        simp only [decO, Nat.add_sub_cancel]
+        rw [ih D m2]
+
+theorem topN_boost_small (c : Bool) (D : Nat) (hD : D ≤ 2) (m : Option Nat) (l : List File) :
+    topN c (some D) m (boost l 2) = topN c (some D) m l := by
+  rw [topN_take_D c (boost l 2), topN_take_D c l]
+  have h1 : (boost l 2).take D = ((boost l 2).take 2).take D := by
+    rw [List.take_take, Nat.min_eq_left hD]
+  have h2 : l.take D = (l.take 2).take D := by
+    rw [List.take_take, Nat.min_eq_left hD]
+  rw [h1, h2, boost_take2]
 
 end ZoektModel.C22
